@@ -234,6 +234,26 @@ pub fn run(ctx: &Ctx) -> Outcome {
     if out.failure.is_some() {
         return out;
     }
+    // tables ending at the very top (and starting at the very bottom) of the i64 range, with and without a trailing fixed rule
+    let rs = par_shards(1, |_, st| {
+        let a = MLtt::new(0, false, Some("AAA"));
+        let b = MLtt::new(3600, true, Some("BBB"));
+        for trans in [vec![(i64::MAX, 1usize)], vec![(0, 1), (i64::MAX, 0)], vec![(i64::MAX - 1, 1), (i64::MAX, 0)], vec![(i64::MIN + 1, 1), (0, 0), (i64::MAX, 1)], vec![(i64::MAX - 2, 1), (i64::MAX - 1, 0)]] {
+            for fixed in [false, true] {
+                let last = trans.last().unwrap().1;
+                let types = vec![a.clone(), b.clone()];
+                let trailer = if fixed { MTrailer::Fixed(types[last].clone()) } else { MTrailer::None };
+                let c = LookupCase { zone: MZone { trans: trans.clone(), types, leaps: vec![], trailer }, us: vec![i64::MAX, i64::MAX - 1, i64::MAX - 2, i64::MIN, i64::MIN + 1, 0], seeds: vec![] };
+                check_enum("lookup", &c, st, check_lookup)?;
+                st.class("tables_ending_at_the_top_of_the_i64_range");
+            }
+        }
+        Ok(())
+    });
+    out.absorb_all(rs);
+    if out.failure.is_some() {
+        return out;
+    }
     // (c) big tables
     let sizes: Vec<usize> = ctx.tier.pick(vec![1000, 4097, 65536], vec![1000, 4097, 65536, 100_000, 262_145]);
     let szr = &sizes;
